@@ -33,6 +33,8 @@ int xv_threw; uint64_t xv_clock, xv_rmw_old; _Bool xv_cas_ok;
 static uintptr_t xv_pass(uintptr_t x) { return x; }
 #undef XV_A_LOAD
 #define XV_A_LOAD(a, o) (XV_ENV(), xv_clock++, XV_ON_LOAD(&(a), (a), (o)), xv_pass((a)))
+/* an obligation that, once stated, may be used by the obligations that follow it (it is reported on its own if it fails) */
+#define OBL(name, cond) { _Bool xv_c_ = (cond); XV_OBL(name, xv_c_); XV_ASSUME(xv_c_); }
 #define MAXSEQ ((uint64_t)1 << 62)     /* assumption: _seq does not wrap */
 
 struct seqlock; struct seqlock* g_sl;  /* the object under test (monitors and the environment address it through this) */
@@ -50,7 +52,7 @@ uint64_t obs_v; _Bool obs_valid, env_since_obs;
  * so the snapshot is the slot's contents at the moment _seq was observed.  rd_dirty: the environment wrote the slot after the entry.
  * ref_valid: from the entry until the next observation of _seq the environment refers to (rd_obs_v >> 1, rd_slot) - see xv_env. */
 uint64_t rd_obs_v, rd_ver, rd_seq; unsigned char rd_snap; _Bool rd_fresh, rd_dirty, ref_valid, rd_locked; unsigned rd_calls, st_calls;
-unsigned cur_slot, rd_slot, st_slot; uint64_t st_seq; _Bool st_locked;
+unsigned cur_slot, rd_slot, st_slot, st_expect; uint64_t st_seq; _Bool st_locked;
 /* per-access bookkeeping */
 unsigned n_seq_loads, n_data_loads, n_data_stores, n_seq_stores, n_cas, n_cas_ok, g_rd_count, g_wr_count; uint64_t g_rd_ver;
 uint64_t cas_ok_clock, unlock_clock, rd_clock, st_clock, fn_clock;
@@ -120,7 +122,7 @@ static void mon_store(const void* addr, uint64_t v, int o) {
   } else {
     n_data_stores++;
     /* guarantee: data is written only by the lock holder, while _seq is the odd value 2j+1 it installed, and only into slot (j+1) mod slots */
-    if (!(lock_mine && (g_sl->_seq & 1) && g_sl->_seq == shadow_seq && cur_slot == (unsigned)(((g_sl->_seq >> 1) + 1) % slots))) guar_bad = 1;
+    if (!(lock_mine && (g_sl->_seq & 1) && g_sl->_seq == shadow_seq && g_sl->_seq == st_seq && cur_slot == st_expect)) guar_bad = 1;
     if (!rel_fence_since) wfence_missing = 1;            /* no release fence between taking the lock and this data store */
     mon_data(addr, 1);
   }
@@ -155,7 +157,7 @@ static void SL_READ_DATA(const struct seqlock* self, T* dest, const storage_t* s
   if (cur_slot >= XV_S) sl_read_data(self, dest, src);
 }
 static void SL_STORE_DATA(struct seqlock* self, const T* src, storage_t* dest) {
-  cur_slot = slot_index(self, dest); st_slot = cur_slot; st_calls++; st_seq = self->_seq; st_clock = xv_clock; st_locked = lock_mine; g_wr_count = 0;
+  cur_slot = slot_index(self, dest); st_slot = cur_slot; st_calls++; st_seq = self->_seq; st_expect = (unsigned)(((st_seq >> 1) + 1) % slots); st_clock = xv_clock; st_locked = lock_mine; g_wr_count = 0;
   for (unsigned s = 0; s < XV_S; s++) if (cur_slot == s) sl_store_data(self, src, &self->_data[s]);
   if (cur_slot >= XV_S) sl_store_data(self, src, dest);
 }
@@ -176,7 +178,7 @@ static void havoc_shared(void) {
   obs_v = nondet_u64(); obs_valid = nondet_bool(); env_since_obs = nondet_bool();
   rd_obs_v = nondet_u64(); rd_ver = nondet_u64(); rd_seq = nondet_u64(); rd_snap = nondet_uchar();
   rd_fresh = nondet_bool(); rd_dirty = nondet_bool(); ref_valid = nondet_bool(); rd_locked = nondet_bool(); st_locked = nondet_bool();
-  rd_calls = nondet_uint(); st_calls = nondet_uint(); cur_slot = nondet_uint(); rd_slot = nondet_uint(); st_slot = nondet_uint(); st_seq = nondet_u64();
+  rd_calls = nondet_uint(); st_calls = nondet_uint(); cur_slot = nondet_uint(); rd_slot = nondet_uint(); st_slot = nondet_uint(); st_expect = nondet_uint(); st_seq = nondet_u64();
   n_seq_loads = nondet_uint(); n_data_loads = nondet_uint(); n_data_stores = nondet_uint(); n_seq_stores = nondet_uint(); n_cas = nondet_uint(); n_cas_ok = nondet_uint();
   g_rd_count = nondet_uint(); g_wr_count = nondet_uint(); g_rd_ver = nondet_u64();
   seq_load_weak = nondet_bool(); fence_missing = nondet_bool(); pending_data_loads = nondet_bool(); lock_mine = nondet_bool(); guar_bad = nondet_bool();
@@ -201,20 +203,16 @@ void xv_env(void) {
   env_since_obs = 1;
   uint64_t a = g_sl->_seq, b = nondet_u64();
   XV_ASSUME(b >= a && b <= MAXSEQ);                 /* R1 */
-  /* R2: the write targets of the odd values 2j+1 in [a, b] are the slots t mod slots for t = j+1 in [lo, hi] */
+  /* R2: the write targets of the odd values 2j+1 in [a, b] are the slots t mod slots for t = j+1 in [lo, hi].
+   * While a read_data call is in progress on slot rd_slot = k mod slots, k = rd_obs_v >> 1 (obligation sl.slot.reader, checked for every
+   * 64-bit value in this run), we have lo > k, and a t in [lo, hi] with t mod slots == k mod slots exists only if hi >= k + slots
+   * (sl.env.mod_lemma: (k + e) mod slots != k mod slots for 0 < e < slots).  So R2 allows that slot to change only if hi - k >= slots.
+   * Every other slot - and every slot when there is nothing to refer to - is given arbitrary contents whenever any odd value lies in
+   * [a, b]: a superset of what R2 allows. */
   uint64_t lo = (a >> 1) + 1, hi = (b + 1) >> 1, k = rd_obs_v >> 1;
   if (hi >= lo) {
-    if (!ref_valid || a < rd_obs_v || rd_slot >= XV_S || hi - k >= XV_S) {
-      for (unsigned s = 0; s < XV_S; s++) env_write(s);          /* a superset of what R2 allows (nothing to refer to, or a full round of slots) */
-    } else {
-      /* A read_data call is in progress on slot rd_slot, which is k mod slots for k = rd_obs_v >> 1 (obligation sl.slot.reader, checked
-       * for every 64-bit value in this run).  Here k < lo <= hi < k + slots, and t mod slots == (k mod slots + (t - k)) mod slots
-       * (sl.env.mod_lemma): slot s is a target iff its distance e = (s - rd_slot) mod slots lies in [lo - k, hi - k]. */
-      for (unsigned s = 0; s < XV_S; s++) {
-        unsigned e = s >= rd_slot ? s - rd_slot : s + XV_S - rd_slot;
-        if (lo - k <= e && e <= hi - k) env_write(s);
-      }
-    }
+    _Bool protect = ref_valid && a >= rd_obs_v && rd_slot < XV_S && hi - k < XV_S;
+    for (unsigned s = 0; s < XV_S; s++) if (!(protect && s == rd_slot)) env_write(s);
   }
   g_sl->_seq = b; shadow_seq = b;
 }
@@ -225,28 +223,31 @@ void h_mod_lemma(void) {
   uint64_t k = nondet_u64(); unsigned e = nondet_uint();
   XV_ASSUME(k <= MAXSEQ && e < XV_S);
   XV_OBL("sl.env.mod_lemma", (k + e) % slots == (unsigned)((k % slots) + e) % XV_S);
+  XV_OBL("sl.env.mod_lemma", e == 0 || (k + e) % slots != k % slots);
   XV_CANARY("mod_lemma.reached");
 }
 
 /* =================== SEQ: the copy loops =================== */
-void h_copy(void) {
+void h_copy(void) {   /* plain XV_OBL here (no assert-then-assume chain): the obligations are independent and each is to be reported */
   struct seqlock sl; g_sl = &sl; havoc_shared(); reset_monitors(); init_inputs();
   in_slot = nondet_uint(); XV_ASSUME(in_slot < XV_S);
   unsigned gs = nondet_uint(), gb = nondet_uint(); XV_ASSUME(gs < XV_S && gb < sizeof(storage_t));     /* frame: an arbitrary byte of an arbitrary slot */
   T src = nondet_T(); sequence_t seq0 = sl._seq; unsigned char old_frame = sl._data[gs].b[gb];
   cur_slot = in_slot; lock_mine = 1;
-  sl_store_data(&sl, &src, &sl._data[in_slot]);
+  for (unsigned s = 0; s < XV_S; s++) if (in_slot == s) sl_store_data(&sl, &src, &sl._data[s]);      /* case split: constant slot address in each branch */
   XV_OBL("sl.copy.all_bytes", sl._data[in_slot].b[in_g] == src.b[in_g]);
   XV_OBL("sl.copy.all_bytes", g_wr_count == 1);
   XV_OBL("sl.copy.all_bytes", sl._seq == seq0 && (gs == in_slot || sl._data[gs].b[gb] == old_frame));
   XV_OBL("sl.copy.in_bounds", !acc_oob);
   XV_OBL("sl.copy.aligned", !acc_misaligned);
   XV_OBL("sl.store.sync", !wfence_missing && n_data_stores >= 1);
+#if XV_S > 1
   if (gs != in_slot) XV_CANARY("copy.frame_other_slot");
+#endif
   /* read it back */
   unsigned char cur_g = sl._data[in_slot].b[in_g], cur_frame = sl._data[gs].b[gb];
   T dest = nondet_T(); g_rd_count = 0;
-  sl_read_data(&sl, &dest, &sl._data[in_slot]);
+  for (unsigned s = 0; s < XV_S; s++) if (in_slot == s) sl_read_data(&sl, &dest, &sl._data[s]);
   XV_OBL("sl.copy.all_bytes", dest.b[in_g] == cur_g);
   XV_OBL("sl.copy.all_bytes", g_rd_count == 1);
   XV_OBL("sl.copy.all_bytes", sl._seq == seq0 && sl._data[gs].b[gb] == cur_frame && sl._data[in_slot].b[in_g] == cur_g);
@@ -266,13 +267,13 @@ void h_lock(void) {
   unsigned gs = nondet_uint(); XV_ASSUME(gs < XV_S);
   sequence_t v = sl._seq; unsigned char old = sl._data[gs].b[in_g];
   sequence_t r = sl_acquire_lock(&sl);
-  XV_OBL("sl.lock.parity", r == v + 1 && sl._seq == v + 1 && lock_mine && n_cas_ok == 1 && n_seq_stores == 0);
-  XV_OBL("sl.store.sync", !cas_weak);
+  OBL("sl.lock.parity", r == v + 1 && sl._seq == v + 1 && lock_mine && n_cas_ok == 1 && n_seq_stores == 0)
+  OBL("sl.store.sync", !cas_weak)
   sl_release_lock(&sl, r);
-  XV_OBL("sl.lock.parity", sl._seq == v + 2 && !lock_mine && n_seq_stores == 1 && n_cas_ok == 1);
-  XV_OBL("sl.lock.parity", n_data_stores == 0 && sl._data[gs].b[in_g] == old);
-  XV_OBL("sl.writer.guarantee", !guar_bad);
-  XV_OBL("sl.store.sync", !rel_weak);
+  OBL("sl.lock.parity", sl._seq == v + 2 && !lock_mine && n_seq_stores == 1 && n_cas_ok == 1)
+  OBL("sl.lock.parity", n_data_stores == 0 && sl._data[gs].b[in_g] == old)
+  OBL("sl.writer.guarantee", !guar_bad)
+  OBL("sl.store.sync", !rel_weak)
   XV_CANARY("lock.done");
 }
 
@@ -284,20 +285,23 @@ void h_store_load(void) {
   in_seq0 = sl._seq; sequence_t k = sl._seq >> 1; unsigned tgt = (unsigned)((k + 1) % XV_S);
   T v = nondet_T(); unsigned char old = sl._data[gs].b[in_g];
   sl_store(&sl, &v);
-  XV_OBL("sl.lock.parity", sl._seq == in_seq0 + 2 && !lock_mine && n_cas_ok == 1 && n_seq_stores == 1);
-  XV_OBL("sl.slot.writer", st_calls == 1 && st_slot == tgt && st_seq == in_seq0 + 1);
-  XV_OBL("sl.store_load.roundtrip", sl._data[tgt].b[in_g] == v.b[in_g]);
-  XV_OBL("sl.store_load.roundtrip", gs == tgt || sl._data[gs].b[in_g] == old);          /* frame: the other slots are untouched */
-  XV_OBL("sl.writer.guarantee", !guar_bad && !acc_oob);
-  XV_OBL("sl.store.sync", !wfence_missing && !rel_weak && !cas_weak);
+  OBL("sl.lock.parity", sl._seq == in_seq0 + 2 && !lock_mine && n_cas_ok == 1 && n_seq_stores == 1)
+  OBL("sl.slot.writer", st_calls == 1 && st_slot == tgt && st_seq == in_seq0 + 1)
+  OBL("sl.store_load.roundtrip", sl._data[tgt].b[in_g] == v.b[in_g])
+  OBL("sl.store_load.roundtrip", gs == tgt || sl._data[gs].b[in_g] == old)          /* frame: the other slots are untouched */
+  OBL("sl.writer.guarantee", !guar_bad && !acc_oob)
+  OBL("sl.store.sync", !wfence_missing && !rel_weak && !cas_weak)
   unsigned n_st = n_data_stores; unsigned char frame2 = sl._data[gs].b[in_g];
+  seq_load_weak = 0;                    /* acquire_lock's relaxed loads of _seq are fine; from here on load() is observed */
   T r = sl_load(&sl);
-  XV_OBL("sl.store_load.roundtrip", r.b[in_g] == v.b[in_g]);
-  XV_OBL("sl.store_load.roundtrip", sl._seq == in_seq0 + 2 && sl._data[gs].b[in_g] == frame2 && n_data_stores == n_st && n_seq_stores == 1 && n_cas == 1);
-  XV_OBL("sl.slot.reader", rd_calls == 1 && rd_slot == tgt);     /* the reader's slot after the write is the slot the writer filled */
-  XV_OBL("sl.load.sync", !seq_load_weak && !fence_missing && !pending_data_loads);
+  OBL("sl.store_load.roundtrip", r.b[in_g] == v.b[in_g])
+  OBL("sl.store_load.roundtrip", sl._seq == in_seq0 + 2 && sl._data[gs].b[in_g] == frame2 && n_data_stores == n_st && n_seq_stores == 1 && n_cas == 1)
+  OBL("sl.slot.reader", rd_calls == 1 && rd_slot == tgt)     /* the reader's slot after the write is the slot the writer filled */
+  OBL("sl.load.sync", !seq_load_weak && !fence_missing && !pending_data_loads)
   XV_CANARY("store_load.done");
+#if XV_S > 1
   if (gs != tgt) XV_CANARY("store_load.frame");
+#endif
 }
 
 /* =================== SEQ: update =================== */
@@ -308,23 +312,25 @@ void h_update(void) {
   in_seq0 = sl._seq; sequence_t k = sl._seq >> 1; unsigned cur = (unsigned)(k % XV_S), tgt = (unsigned)((k + 1) % XV_S);
   unsigned char old_cur = sl._data[cur].b[in_g], old = sl._data[gs].b[in_g]; int f = nondet_int();
   sl_update(&sl, f);
-  XV_OBL("sl.update.applies", fn_calls == 1 && fn_id == f && fn_in_g == old_cur);      /* applied once, to the current value */
-  XV_OBL("sl.update.applies", fn_locked && fn_seq == in_seq0 + 1);                      /* ... while holding the lock */
-  XV_OBL("sl.update.applies", sl._data[tgt].b[in_g] == fn_out_g);                       /* its result is what gets published */
-  XV_OBL("sl.update.applies", gs == tgt || sl._data[gs].b[in_g] == old);
-  XV_OBL("sl.lock.parity", sl._seq == in_seq0 + 2 && !lock_mine && n_cas_ok == 1 && n_seq_stores == 1);
-  XV_OBL("sl.slot.writer", st_calls == 1 && st_slot == tgt && rd_calls == 1 && rd_slot == cur);
+  OBL("sl.update.applies", fn_calls == 1 && fn_id == f && fn_in_g == old_cur)      /* applied once, to the current value */
+  OBL("sl.update.applies", fn_locked && fn_seq == in_seq0 + 1)                      /* ... while holding the lock */
+  OBL("sl.update.applies", sl._data[tgt].b[in_g] == fn_out_g)                       /* its result is what gets published */
+  OBL("sl.update.applies", gs == tgt || sl._data[gs].b[in_g] == old)
+  OBL("sl.lock.parity", sl._seq == in_seq0 + 2 && !lock_mine && n_cas_ok == 1 && n_seq_stores == 1)
+  OBL("sl.slot.writer", st_calls == 1 && st_slot == tgt && rd_calls == 1 && rd_slot == cur)
   /* the snapshot that feeds the functor is taken under the lock: after the CAS, before the unlocking store, from the slot designated by
    * the sequence value acquire_lock returned; the functor runs and the store goes to the next slot under that same sequence value */
-  XV_OBL("sl.update.read_under_lock", rd_calls == 1 && rd_locked && rd_seq == in_seq0 + 1 && rd_slot == (unsigned)((rd_seq >> 1) % XV_S));
-  XV_OBL("sl.update.read_under_lock", st_calls == 1 && st_locked && st_seq == rd_seq && st_slot == (unsigned)(((rd_seq >> 1) + 1) % XV_S));
-  XV_OBL("sl.update.read_under_lock", cas_ok_clock <= rd_clock && rd_clock < fn_clock && fn_clock <= st_clock && st_clock < unlock_clock);
-  XV_OBL("sl.writer.guarantee", !guar_bad && !acc_oob);
-  XV_OBL("sl.store.sync", !wfence_missing && !rel_weak && !cas_weak);
+  OBL("sl.update.read_under_lock", rd_calls == 1 && rd_locked && rd_seq == in_seq0 + 1 && rd_slot == cur)   /* (rd_seq >> 1) == k */
+  OBL("sl.update.read_under_lock", st_calls == 1 && st_locked && st_seq == rd_seq && st_slot == tgt)
+  OBL("sl.update.read_under_lock", cas_ok_clock <= rd_clock && rd_clock < fn_clock && fn_clock <= st_clock && st_clock < unlock_clock)
+  OBL("sl.writer.guarantee", !guar_bad && !acc_oob)
+  OBL("sl.store.sync", !wfence_missing && !rel_weak && !cas_weak)
   T r = sl_load(&sl);
-  XV_OBL("sl.update.applies", r.b[in_g] == fn_out_g && sl._seq == in_seq0 + 2);
+  OBL("sl.update.applies", r.b[in_g] == fn_out_g && sl._seq == in_seq0 + 2)
   XV_CANARY("update.done");
+#if XV_S > 2
   if (gs != tgt && gs != cur) XV_CANARY("update.frame");
+#endif
 }
 
 /* =================== SEQ: slot arithmetic, reader against a writer that is inside =================== */
@@ -336,24 +342,24 @@ void h_slots(void) {
   unsigned char cur_g = sl._data[k % XV_S].b[in_g];
   T r0 = sl_load(&sl);
   unsigned reader_even = rd_slot;
-  XV_OBL("sl.slot.reader", rd_calls == 1 && reader_even == (unsigned)(k % XV_S) && r0.b[in_g] == cur_g);
-  XV_OBL("sl.load.sync", !seq_load_weak && !fence_missing && !pending_data_loads);
-  XV_OBL("sl.load.readonly", n_data_stores == 0 && n_seq_stores == 0 && n_cas == 0 && sl._seq == in_seq0);
+  OBL("sl.slot.reader", rd_calls == 1 && reader_even == (unsigned)(k % XV_S) && r0.b[in_g] == cur_g)
+  OBL("sl.load.sync", !seq_load_weak && !fence_missing && !pending_data_loads)
+  OBL("sl.load.readonly", n_data_stores == 0 && n_seq_stores == 0 && n_cas == 0 && sl._seq == in_seq0)
 #if XV_S > 1
   /* a reader that finds the odd sequence 2k+1 (a writer is inside) still reads slot k mod slots */
   sl._seq = in_seq0 + 1; shadow_seq = sl._seq;
   T r1 = sl_load(&sl);
   unsigned reader_odd = rd_slot;
-  XV_OBL("sl.slot.reader", rd_calls == 2 && reader_odd == reader_even && r1.b[in_g] == cur_g);
+  OBL("sl.slot.reader", rd_calls == 2 && reader_odd == reader_even && r1.b[in_g] == cur_g)
   sl._seq = in_seq0; shadow_seq = sl._seq;
 #endif
   /* the writer that turns 2k into 2k+1 writes slot (k+1) mod slots ... */
   T v = nondet_T();
   sl_store(&sl, &v);
-  XV_OBL("sl.slot.writer", st_calls == 1 && st_slot == (unsigned)((k + 1) % XV_S));
+  OBL("sl.slot.writer", st_calls == 1 && st_slot == (unsigned)((k + 1) % XV_S))
 #if XV_S > 1
   /* ... which is never the slot a reader of 2k or 2k+1 reads */
-  XV_OBL("sl.slot.disjoint", st_slot != reader_even && st_slot != reader_odd);
+  OBL("sl.slot.disjoint", st_slot != reader_even && st_slot != reader_odd)
   XV_CANARY("slots.multi");
 #endif
   XV_CANARY("slots.done");
@@ -364,7 +370,7 @@ void h_load_solo(void) {
   struct seqlock sl; g_sl = &sl; havoc_shared(); reset_monitors(); init_inputs();
   XV_ASSUME(sl._seq <= MAXSEQ);
   T r = sl_load(&sl);
-  XV_OBL("sl.load.readonly", n_data_stores == 0 && n_seq_stores == 0 && n_cas == 0);
+  OBL("sl.load.readonly", n_data_stores == 0 && n_seq_stores == 0 && n_cas == 0)
   if (sl._seq & 1) XV_CANARY("solo.odd"); else XV_CANARY("solo.even");
 }
 
@@ -380,21 +386,23 @@ void h_load_int(void) {
   env_on = 0;
   /* the bytes were read from the slot designated (writer's 64-bit slot function) by an observation v of _seq made during the call,
    * with nothing happening between that observation and the start of the copy ... */
-  XV_OBL("sl.slot.reader", rd_slot == (unsigned)((rd_obs_v >> 1) % XV_S));
-  XV_OBL("sl.load.untorn", rd_fresh);
+  OBL("sl.slot.reader", rd_slot == (unsigned)((rd_obs_v >> 1) % XV_S))
+  OBL("sl.load.untorn", rd_fresh)
   /* ... which (single slot) was even, i.e. no writer was inside ... */
-  XV_OBL("sl.load.untorn", XV_S > 1 || !(rd_obs_v & 1));
+  OBL("sl.load.untorn", XV_S > 1 || !(rd_obs_v & 1))
   /* ... the slot was not written between that observation and the validating load of _seq ... */
-  XV_OBL("sl.load.untorn", !rd_dirty);
+  OBL("sl.load.untorn", !rd_dirty)
   /* ... so every byte was read while the slot still had the version it had at that observation, and equals the byte it held then */
-  XV_OBL("sl.load.untorn", g_rd_count == 1 && g_rd_ver == rd_ver);
-  XV_OBL("sl.load.untorn", r.b[in_g] == rd_snap);
+  OBL("sl.load.untorn", g_rd_count == 1 && g_rd_ver == rd_ver)
+  OBL("sl.load.untorn", r.b[in_g] == rd_snap)
   /* not older than the last store completed before the call; and load writes nothing */
-  XV_OBL("sl.load.fresh", rd_obs_v >= in_seq0 && (rd_obs_v >> 1) >= (in_seq0 >> 1));
-  XV_OBL("sl.load.readonly", n_data_stores == 0 && n_seq_stores == 0 && n_cas == 0);
-  XV_OBL("sl.load.sync", !seq_load_weak && !fence_missing);
+  OBL("sl.load.fresh", rd_obs_v >= in_seq0 && (rd_obs_v >> 1) >= (in_seq0 >> 1))
+  OBL("sl.load.readonly", n_data_stores == 0 && n_seq_stores == 0 && n_cas == 0)
+  OBL("sl.load.sync", !seq_load_weak && !fence_missing)
   XV_CANARY("load_int.returned");
-  if (sl._seq != rd_obs_v) XV_CANARY("load_int.seq_moved");
+#if XV_S > 1
+  if (sl._seq != rd_obs_v) XV_CANARY("load_int.seq_moved");        /* validated although _seq moved on during the copy */
+#endif
   if (env_writes) XV_CANARY("load_int.env_wrote");
   if (in_seq0 & 1) XV_CANARY("load_int.odd_start");
 #endif
@@ -408,9 +416,9 @@ void h_acquire_int(void) {
   env_on = 1;
   sequence_t r = sl_acquire_lock_cut(&sl);
   env_on = 0;
-  XV_OBL("sl.lock.acquire", n_cas_ok == 1 && lock_mine && (r & 1) && sl._seq == r && shadow_seq == r);
-  XV_OBL("sl.writer.guarantee", !guar_bad && n_seq_stores == 0 && n_data_stores == 0);
-  XV_OBL("sl.store.sync", !cas_weak);
+  OBL("sl.lock.acquire", n_cas_ok == 1 && lock_mine && (r & 1) && sl._seq == r && shadow_seq == r)
+  OBL("sl.writer.guarantee", !guar_bad && n_seq_stores == 0 && n_data_stores == 0)
+  OBL("sl.store.sync", !cas_weak)
   XV_CANARY("acquire_int.returned");
   if (env_writes) XV_CANARY("acquire_int.env_wrote");
 #endif
